@@ -1414,6 +1414,19 @@ def _validate_patch_target(r: "Repo", repo_path: bytes, tree_path: bytes) -> byt
     return fs_path
 
 
+def _replace_symlink(fs_path: bytes) -> None:
+    """Remove a symlink left at a patch target so it is not written through.
+
+    ``open(..., "wb")`` follows a symlink in the final path component. One that
+    points at e.g. ``.git/hooks/pre-commit`` resolves inside the work tree, so
+    ``_ensure_within_repo`` accepts it, and the patch would create the hook.
+    Replace the link with a fresh regular file, like ``build_file_from_blob``
+    does on checkout.
+    """
+    if os.path.islink(fs_path):
+        os.unlink(fs_path)
+
+
 def _apply_rename_or_copy(
     r: "Repo",
     src_path: bytes,
@@ -1503,6 +1516,7 @@ def _apply_rename_or_copy(
     # Write to destination
     if not cached:
         os.makedirs(os.path.dirname(dst_fs_path), exist_ok=True)
+        _replace_symlink(dst_fs_path)
         with open(dst_fs_path, "wb") as f:
             f.write(content)
         if patch.new_mode is not None:
@@ -1671,6 +1685,7 @@ def apply_patches(
                 # Write binary file
                 if not cached:
                     os.makedirs(os.path.dirname(fs_path), exist_ok=True)
+                    _replace_symlink(fs_path)
                     with open(fs_path, "wb") as f:
                         f.write(binary_content)
                     if patch.new_mode is not None:
@@ -1837,6 +1852,7 @@ def apply_patches(
             if not cached:
                 # Write to working tree
                 os.makedirs(os.path.dirname(fs_path), exist_ok=True)
+                _replace_symlink(fs_path)
                 with open(fs_path, "wb") as f:
                     f.write(result_content)
 
